@@ -222,6 +222,41 @@ func main() {
 			}
 		}
 		printSolverStats()
+	case "replay":
+		// re-runs the concrete input of a replay file on the real build
+		b, err := os.ReadFile(os.Args[2])
+		if err != nil {
+			fmt.Fprintln(os.Stderr, err)
+			os.Exit(2)
+		}
+		var r struct {
+			Property   string       `json:"property"`
+			Harness    string       `json:"harness"`
+			Obligation string       `json:"obligation"`
+			Model      *NativeModel `json:"model"`
+		}
+		if err := json.Unmarshal(b, &r); err != nil || r.Model == nil || r.Harness == "" {
+			fmt.Fprintln(os.Stderr, "not a replayable file (no harness/model):", err)
+			os.Exit(2)
+		}
+		outs, err := RunNative([]NativeCase{{Harness: r.Harness, Model: r.Model}})
+		if err != nil {
+			fmt.Fprintln(os.Stderr, err)
+			os.Exit(2)
+		}
+		ob, _ := json.MarshalIndent(outs[0], "", " ")
+		fmt.Println(string(ob))
+		failed := outs[0].Panic != "" && r.Obligation == "implicit/no-panic"
+		for _, f := range outs[0].Failed {
+			if f == r.Obligation {
+				failed = true
+			}
+		}
+		if failed {
+			fmt.Printf("VIOLATION property=%s replay=%s\n", r.Property, os.Args[2])
+			os.Exit(1)
+		}
+		fmt.Println("not reproduced on the current tree")
 	case "check":
 		fs := flag.NewFlagSet("check", flag.ExitOnError)
 		tier := fs.String("tier", "quick", "quick|thorough")
